@@ -1,4 +1,5 @@
 import Jose.Jws
+import Jose.Lemmas.ParseDump
 import Jose.Lemmas.B64
 import Jose.Lemmas.Json
 import Jose.Props.C01
@@ -335,5 +336,98 @@ theorem sign_then_verify (P : Prims) (hwf : WfPrims P) (s jwk : Json) (pay rnd :
   have hprm := hmay a (findSign_mem a.name a g1)
   simp only [pairOk, verOne, Json.isObject, Bool.not_true, Bool.false_eq_true, if_false, g4, hhdr, g2, g3, hsel, g1,
     hprm, hf', h7, Option.bind_some, leafStage, V, hok, if_true, Option.isSome_some]
+
+
+/-! ### the JSON-layer hypothesis discharged
+
+  `LoadDump p` ("decoding and parsing the encoded dump of `p` gives `p` back") was a hypothesis of the round trip.
+  `Jose/Lemmas/ParseDump.lean` proves it — `parse ∘ dump = id` on the model of jansson's reader and writer, UTF-8
+  and base64url included — for every object made of null, booleans, 64-bit integers, strings the dumper writes
+  without escapes, arrays, and objects in sorted key order (`Json.Plain`). -/
+
+section
+open Jose.B64 Jose.Props.C01
+/-- **The JSON layer re-reads what it wrote** — no longer a hypothesis for headers made of null, booleans,
+    64-bit integers, strings the dumper writes without escapes, arrays, and objects whose members are in
+    sorted key order: `jose_b64_dec_load(jose_b64_enc_dump(p)) = p`. -/
+theorem loadDump_of_plain (p : List (String × Json)) (hp : Plain (.obj p)) : LoadDump p := by
+  unfold LoadDump
+  have hb := bytesOfString_bytes (Json.dump (.obj p))
+  have hdec := dec_enc_json (bytesOfString (Json.dump (.obj p))) hb
+  simp only [decLoad]
+  cases he : B64.enc (bytesOfString (Json.dump (.obj p))) with
+  | str s =>
+    simp only [he] at hdec
+    simp only [hdec, loadBytes_bytesOfString]
+    exact loadString_dump { decodeAny := true } (.obj p) hp (Or.inl rfl)
+  | _ => simp [B64.enc] at he
+
+instance : DecidablePred PlainChar := fun c => by unfold PlainChar; infer_instance
+instance (s : String) : Decidable (plainStr s) := by unfold plainStr; infer_instance
+
+/-- every registered algorithm name is made of characters the dumper writes as themselves (table fact,
+    re-checked against the regenerated registry) -/
+theorem alg_names_plain : ∀ a ∈ algs, plainStr a.name := by decide
+
+/-- **C03 (round trip) without the JSON-layer hypothesis**: as `sign_then_verify`, for signature objects whose
+    protected header (after the algorithm was recorded) is plain in the sense of `Json.Plain` -/
+theorem sign_then_verify_plain (P : Prims) (hwf : WfPrims P) (s jwk : Json) (pay rnd : Bs) (e : Json)
+    (h : sigEntryObj P s jwk pay rnd = some e)
+    (hmay : ∀ a ∈ signAlgs, Jwk.prm (some jwk) false a.p2 = true)
+    (hplain : ∀ a s1 p, findAlgSig s jwk = some (a, s1) → s1.get? "protected" = some (.obj p) → Plain (.obj p))
+    (hec : ∀ key d, ecKeyOf P jwk = some key → key.d = some d → EcGood P key.crv key.x key.y d)
+    (hrsa : ∀ key, rsaSigKey jwk = some key → RsaGood P key.priv) :
+    pairOk P e jwk pay = true :=
+  sign_then_verify P hwf s jwk pay rnd e h hmay (fun a s1 p h1 h2 => loadDump_of_plain p (hplain a s1 p h1 h2)) hec hrsa
+
+/-- a template without a protected header: after `find_alg` it still has none (the header named the
+    algorithm) or exactly `{"alg": <the algorithm applied>}` (it was inferred and recorded) -/
+theorem findAlgSig_no_protected (kvs : List (String × Json)) (jwk : Json) (a : AlgRec) (s1 : Json)
+    (hnp : lookup "protected" kvs = none) (h : findAlgSig (.obj kvs) jwk = some (a, s1)) :
+    s1.get? "protected" = none ∨ s1.get? "protected" = some (.obj [("alg", .str a.name)]) := by
+  simp only [findAlgSig, Option.bind_eq_some_iff] at h
+  obtain ⟨hdr, hh, r, hr, kalg, hk, hrest⟩ := h
+  obtain ⟨halg, a', s'⟩ := r
+  split at hrest
+  · simp at hrest
+  · split at hrest
+    · simp at hrest
+    · simp only [Option.some.injEq, Prod.mk.injEq] at hrest
+      obtain ⟨rfl, rfl⟩ := hrest
+      simp only [chooseAlg] at hr
+      cases hga : hdr.getStr? "alg" with
+      | some ha =>
+        simp only [hga, Option.map_eq_some_iff, Prod.mk.injEq] at hr
+        obtain ⟨a2, _, _, _, rfl⟩ := hr
+        exact Or.inl (by simp [get?, hnp])
+      | none =>
+        simp only [hga, Option.bind_eq_some_iff, Option.map_eq_some_iff, Prod.mk.injEq] at hr
+        obtain ⟨sname, _, a2, _, s2, hrec, _, rfl, rfl⟩ := hr
+        simp only [recordAlg, hnp, Option.some.injEq] at hrec
+        subst hrec
+        exact Or.inr (by simp [get?, lookup_setKV_same])
+
+/-- **C03 (round trip), fully discharged for templates without a protected header** (none at all, `{}`, or only
+    an unprotected `header`): whatever `jose_jws_sig` appends verifies under the same key — no hypothesis about
+    the JSON layer is left; the algorithm may be given in the unprotected header, by the key, or be inferred. -/
+theorem sign_then_verify_no_protected (P : Prims) (hwf : WfPrims P) (kvs : List (String × Json)) (jwk : Json) (pay rnd : Bs) (e : Json)
+    (hnp : lookup "protected" kvs = none)
+    (h : sigEntryObj P (.obj kvs) jwk pay rnd = some e)
+    (hmay : ∀ a ∈ signAlgs, Jwk.prm (some jwk) false a.p2 = true)
+    (hec : ∀ key d, ecKeyOf P jwk = some key → key.d = some d → EcGood P key.crv key.x key.y d)
+    (hrsa : ∀ key, rsaSigKey jwk = some key → RsaGood P key.priv) :
+    pairOk P e jwk pay = true := by
+  refine sign_then_verify_plain P hwf (.obj kvs) jwk pay rnd e h hmay ?_ hec hrsa
+  intro a s1 p h1 h2
+  rcases findAlgSig_no_protected kvs jwk a s1 hnp h1 with hn | hs
+  · rw [hn] at h2; cases h2
+  · rw [hs] at h2
+    injection h2 with h2; injection h2 with h2; subst h2
+    have hmem : a ∈ algs := by
+      obtain ⟨g1, _⟩ := findAlgSig_spec (.obj kvs) jwk a s1 rfl h1
+      exact (List.mem_filter.mp (findSign_mem a.name a g1)).1
+    refine ⟨⟨by decide, alg_names_plain a hmem, trivial⟩, ?_⟩
+    simp [SortedKeys]
+end
 
 end Jose.Props.C03
